@@ -683,6 +683,10 @@ func (db *DB) rollbackJournal(ctx context.Context) error {
 		return err
 	}
 
+	// The interrupted transaction is gone so none of its pages are dirty.
+	db.dirtyPageSet = make(map[uint32]struct{})
+	db.journalTx = false
+
 	if invalidator := db.store.Invalidator; invalidator != nil {
 		if err := invalidator.InvalidateEntry(db.name + "-journal"); err != nil {
 			return fmt.Errorf("invalidate journal: %w", err)
